@@ -218,6 +218,11 @@ func buildWorker(id, fl string, m *meta) (string, string, error) {
 	cmd := exec.Command("go", args...)
 	cmd.Dir = filepath.Join(root, "harness")
 	cmd.Env = goEnv
+	if fl == "386" {
+		// the same monitors in a 32-bit build (int, uintptr and alignment of
+		// 64-bit fields differ): the only other target this machine can run
+		cmd.Env = append(append([]string(nil), goEnv...), "GOARCH=386", "CGO_ENABLED=0")
+	}
 	var buf bytes.Buffer
 	cmd.Stdout, cmd.Stderr = &buf, &buf
 	if err := cmd.Run(); err != nil {
